@@ -31,6 +31,8 @@ class ClassInfo(object):
 
 
 class FuncInfo(object):
+    outer = None
+
     def __init__(self, module, node, cls=None):
         self.module = module
         self.node = node
@@ -84,8 +86,10 @@ class Repo(object):
             self.modules[name] = m
             self.by_path[rel] = m
         for m in self.modules.values():
+            m.repo = self
             self._index(m)
         self._param_types = None
+        self._nested = {}
         self._ltypes = {}
         self._rcache = {}
 
@@ -321,6 +325,9 @@ class Repo(object):
             ast.copy_location(inner, call)
             return self._resolve(f, inner, ty)
         if isinstance(fn, ast.Name):
+            nested = self.nested_funcs(f).get(fn.id)
+            if nested is not None:
+                return nested, 'func', args, kws
             r = self.lookup_name(f.module, fn.id)
             if isinstance(r, FuncInfo):
                 return r, 'func', args, kws
@@ -350,6 +357,22 @@ class Repo(object):
                 if subs:
                     return subs[0], 'method', args, kws
         return None
+
+    def nested_funcs(self, f):
+        """functions defined directly inside f's body (closures): name -> FuncInfo (outer = f)"""
+        k = id(f)
+        hit = self._nested.get(k)
+        if hit is not None and hit[0] is f:
+            return hit[1]
+        out = {}
+        for st in ast.walk(f.node):
+            if isinstance(st, ast.FunctionDef) and st is not f.node:
+                nf = FuncInfo(f.module, st, None)
+                nf.outer = f
+                nf.qual = f.qual + '.<locals>.' + st.name
+                out[st.name] = nf
+        self._nested[k] = (f, out)
+        return out
 
     def resolve_call(self, f, call):
         """-> (callee FuncInfo, kind, bound {param: arg expr}) or None for calls outside the repo."""
